@@ -219,11 +219,11 @@ func genC13() {
 		var lit ast.Expr
 		if fd != nil {
 			// the slice of fields: whatever local holds the result of strings.Split (its name does not matter)
-			fields := "parts"
+			fields := ""
 			ast.Inspect(fd, func(n ast.Node) bool {
-				if as, ok := n.(*ast.AssignStmt); ok && len(as.Lhs) == 1 && len(as.Rhs) == 1 {
+				if as, ok := n.(*ast.AssignStmt); ok && fields == "" && len(as.Lhs) == 1 && len(as.Rhs) == 1 {
 					if c, ok := as.Rhs[0].(*ast.CallExpr); ok && exprText(c.Fun) == "strings.Split" {
-						fields = exprText(as.Lhs[0])
+						fields = exprText(as.Lhs[0]) // the first split: the line into its fields
 					}
 				}
 				return true
